@@ -19,18 +19,32 @@ struct ArenaMon {
     tbb::task_arena arena; int conc, reserved; int prio;
     std::atomic<uint64_t> inflight_bits{0};
     std::atomic<int> inflight{0}, max_inflight{0}, max_index{-1};
-    std::atomic<long> bodies{0}, reserved_entries{0}, enq_pending{0};
-    ArenaMon(int c, int r, tbb::task_arena::priority p) : arena(c, r, p), conc(c), reserved(r), prio((int)p) { arena.initialize(); }
+    std::atomic<long> bodies{0}, reserved_entries{0}, enq_pending{0}; std::atomic<bool> ever_enqueued{false}; long enq_events_at_creation = 0;
+    ArenaMon(int c, int r, tbb::task_arena::priority p);
 };
-static thread_local ArenaMon* tl_in = nullptr;     // arena whose body this thread is inside (outermost body only)
+static thread_local ArenaMon* tl_in = nullptr;
+static std::atomic<long>& enqueue_events();
+ArenaMon::ArenaMon(int c, int r, tbb::task_arena::priority p) : arena(c, r, p), conc(c), reserved(r), prio((int)p) { enq_events_at_creation = enqueue_events().load(std::memory_order_acquire); arena.initialize(); }     // arena whose body this thread is inside (outermost body only)
 
 // body instrumentation: call at the start of every unit of work known to run in arena m
+// set while a scenario runs under max_allowed_parallelism = 1 and never enqueues anything: no worker may run user work then (the one
+// mandatory worker is granted only for enqueued work); likewise a one-thread arena that never had enqueued work gets no worker
+static std::atomic<int> g_no_worker_expected{0};
+// every arena::enqueue_task of the process (user enqueue, and execute() delegating to a full arena - that is enqueued work too); hook 74
+// fires before the task is pushed, so a worker that was requested for it can never be seen before the count moved
+static std::atomic<long> g_enqueue_events{0}, g_enq_at_scenario_start{0};
+static std::atomic<long>& enqueue_events() { return g_enqueue_events; }
 struct InBody {
     ArenaMon* m; int idx; bool outer; long saved_scope;
     InBody(ArenaMon* mon, long task_scope) : m(mon), idx(-1), outer(false), saved_scope(tl_exec_scope) {
         // isolation: a thread that is waiting inside an isolated scope W may only run tasks of scope W
         if (tl_exec_scope != 0 && tl_exec_scope != task_scope) fail("c16.isolation-breach", "a thread waiting in isolation scope " + std::to_string(tl_exec_scope) + " executed a task of scope " + std::to_string(task_scope));
         tl_exec_scope = task_scope;
+        if (!tl_external) {
+            long ev = g_enqueue_events.load(std::memory_order_acquire);
+            if (g_no_worker_expected.load(std::memory_order_relaxed) && ev == g_enq_at_scenario_start.load(std::memory_order_relaxed)) fail("c16.worker-budget.worker-without-enqueued-work-under-limit-1", "a worker thread executes a body although max_allowed_parallelism is 1 and nothing has been enqueued (by the user or by a delegating execute) since the limit was set");
+            if (m->conc == 1 && m->reserved == 1 && ev == m->enq_events_at_creation) fail("c16.worker-in-one-thread-arena-without-enqueued-work", "a worker thread executes a body in a workerless one-thread arena although nothing has been enqueued anywhere since the arena was created");
+        }
         if (tl_in == m) return;                      // nested body on the same thread in the same arena
         if (tl_in != nullptr) return;                // nested into another arena: outer accounting stays with the outer arena
         outer = true; tl_in = m;
@@ -139,6 +153,7 @@ static void on_report(int id, const void* obj, const long* v, int n) {
 static std::atomic<long> g_workers_asleep{0}, g_workers_known{0};
 static thread_local bool tl_worker_known = false;
 static void on_point(int id, const void*, long) {
+    if (id == 74) { g_enqueue_events.fetch_add(1, std::memory_order_release); return; }
     if (id == 61) { if (!tl_worker_known) { tl_worker_known = true; g_workers_known.fetch_add(1); } g_workers_asleep.fetch_add(1); }
     else if (id == 62) g_workers_asleep.fetch_sub(1);
 }
@@ -187,14 +202,19 @@ int main(int argc, char** argv) {
                 shp += "(" + std::to_string(c) + "," + std::to_string(rs) + ")";
             }
             int nt = 1 + (int)r.below(8), ops = 3 + (int)r.below(10);
-            std::unique_ptr<tbb::global_control> lim; if (r.chance(1, 4)) lim.reset(new tbb::global_control(tbb::global_control::max_allowed_parallelism, 1 + r.below(8)));
+            size_t limv = 1 + r.below(8); if (r.chance(1, 3)) limv = 1;
+            std::unique_ptr<tbb::global_control> lim; if (r.chance(1, 4)) lim.reset(new tbb::global_control(tbb::global_control::max_allowed_parallelism, limv));
+            // under a limit of 1, half of the scenarios enqueue nothing: then no worker may take part at all
+            bool no_enqueue = lim && limv == 1 && r.chance(1, 2);
+            if (no_enqueue) { sleep_us(300); g_enq_at_scenario_start.store(g_enqueue_events.load()); g_no_worker_expected.store(1); R.stat("scenarios_under_limit_1_without_enqueue"); }
+            struct NoW { bool on; ~NoW() { if (on) g_no_worker_expected.store(0); } } now_guard{ no_enqueue };
             std::vector<std::thread> th; uint64_t s0 = r.next(); std::atomic<long> enq_left{0};
             for (int t = 0; t < nt; t++) th.emplace_back([&, t] {
                 tl_external = true; Rng tr(mix(s0, t));
                 for (int i = 0; i < ops; i++) {
                     size_t mi = tr.below(am.size());
                     ArenaMon* m = am[mi].get();
-                    unsigned what = (unsigned)tr.below(10);
+                    unsigned what = (unsigned)tr.below(10); if (no_enqueue && what >= 5 && what < 7) what = 0;
                     uint64_t sd = tr.next();
                     if (what < 5) {
                         m->arena.execute([&, m, sd] {
@@ -211,7 +231,7 @@ int main(int argc, char** argv) {
                             }, tbb::simple_partitioner());
                         });
                     } else if (what < 7) {
-                        enq_left++; m->enq_pending++; g_enqueued_not_run++;
+                        enq_left++; m->enq_pending++; g_enqueued_not_run++; m->ever_enqueued.store(true, std::memory_order_relaxed);
                         m->arena.enqueue([&, m, sd] { g_enqueued_not_run--; { InBody ib(m, 0); Rng br(sd); spin_some(br); } m->enq_pending--; enq_left--; });
                     } else if (what < 9 && mi + 1 < am.size()) {
                         // nested arenas only in increasing order: holding a slot of A while waiting for a slot of B and vice versa
